@@ -695,7 +695,15 @@ func (m *machine) violationNow(label, msg string) {
 			return
 		}
 	}
-	_, vals := m.check(nil, m.modelWant())
+	res, vals := m.check(nil, m.modelWant())
+	if res == "unsat" {
+		// the path was only kept because an earlier feasibility query timed out: it is infeasible
+		return
+	}
+	if res != "sat" {
+		m.h.noteInconclusive(label)
+		return
+	}
 	rec := m.buildRecord("violation", label, msg, vals)
 	m.violations = append(m.violations, rec)
 }
